@@ -402,6 +402,11 @@ func (x *Exec) evalPseudo(name string, n *ast.CallExpr, st *State, env *Env) (Va
 		bv := x.c.freshName(vn)
 		body := x.defaultType(x.eval(n.Args[1], st, env.with(vn, Val{T: bv, Ty: tInt}))).T
 		return Val{T: fmt.Sprintf("(forall ((%s Int)) %s)", bv, body), Ty: tBool}, true
+	case "forallstr": // forallstr(k, body): all strings
+		vn := x.bindVar(n.Args[0])
+		bv := x.c.freshName(vn)
+		body := x.defaultType(x.eval(n.Args[1], st, env.with(vn, Val{T: bv, Ty: tString}))).T
+		return Val{T: fmt.Sprintf("(forall ((%s Str)) %s)", bv, body), Ty: tBool}, true
 	case "str3":
 		a := x.coerce(x.eval(n.Args[0], st, env), tByte)
 		b := x.coerce(x.eval(n.Args[1], st, env), tByte)
@@ -563,6 +568,15 @@ func (x *Exec) evalPseudo(name string, n *ast.CallExpr, st *State, env *Env) (Va
 		x.c.assumes = append(x.c.assumes, f)
 		x.usedContracts["lemma."+lm.Name] = true
 		return Val{T: f, Ty: tBool}, true
+	case "sortless":
+		// sortless(i, j): the comparator of the most recent sort.Slice* call (a single-return literal) evaluated on the
+		// current contents of the sorted slice at positions i, j
+		if x.lastLess == nil {
+			panic(unsupported("sortless() without a preceding sort with a single-expression comparator"))
+		}
+		a := x.defaultType(x.eval(n.Args[0], st, env))
+		b := x.defaultType(x.eval(n.Args[1], st, env))
+		return Val{T: x.lastLess(st, a.T, b.T), Ty: tBool}, true
 	case "sortperm", "sortinv":
 		// permutation of the most recent sort.Slice* call in this function: new position -> old position (sortperm) and back
 		if x.lastPerm[0] == "" {
